@@ -1,7 +1,15 @@
 ---- MODULE ContextMC ----
 EXTENDS Context
+ASSUME TLCSet(7, {})
 McDescr == {"pc", "lc"}
 McCH == {"c1", "c2", "c3", "c4"}
 SimCH == {"c1", "c2", "c3", "c4", "c5", "c6", "c7", "c8"}
 EmitSim == EmitAtLevel(7)
+\* test purposes (breadth-first, one worker): the first (= a shortest) history of single-proposal calls for every
+\* situation label - e.g. four calls until an association meets a completely disassociated state that was updated
+\* after the associated one (random simulation reaches that about once in two hundred behaviours, mostly in rejected calls)
+PurposeNext == \/ SetLocation("lc") \/ \E p \in Proposal : SetContextState(<<p>>)
+PurposeSpec == Init /\ [][PurposeNext]_vars
+EmitPurpose == (hist # <<>>) => LET fresh == hist[Len(hist)].sit \ TLCGet(7)
+                                IN fresh # {} => (PrintT(<<"BEH", ToJson(hist)>>) /\ TLCSet(7, TLCGet(7) \cup fresh))
 ====
